@@ -153,6 +153,21 @@ chk('C08',
     COMMON_NOTE, 'bounded-exhaustive enumeration of fragment sets / complete strings through the real writer and reader (round-trip oracle)',
     'DESIGN.md section 4 C08')
 
+chk('C18',
+    'Molecules (10 resolved CGsmiles strings incl. shared atoms, rings, charged and weighted atoms, 10 pysmiles-read molecules, a seed-selected larger molecule) x node order (all permutations up to 5 atoms, 8 fixed '
+    'permutations above) x key relabeling x conformer / no conformer x pinned RDKit embedding seeds x weight patterns x translations, all enumerated. Oracles: round trip through RDKit preserves element, charge, bond order '
+    'and hydrogen count; after embedding every bond length lies within [0.70, 1.35] x the sum of covalent radii; every bead is the weight-normalised average of exactly its own atoms and follows translations.',
+    COMMON_NOTE + ' RDKit embedding / UFF are pinned by seed and trusted; embedding failures are inconclusive.',
+    'bounded-exhaustive configuration enumeration (orderings, relabelings, weights, translations, pinned seeds) on the real bridge',
+    'DESIGN.md section 4 C18')
+chk('C19',
+    'Every connected graph with 2-6 nodes up to isomorphism (143 graphs of the networkx atlas; 7 nodes in thorough), 10 resolved molecules with hydrogens, rings and cis / trans annotated double bonds, a seed-selected slice of '
+    '7-node graphs x 5 relabelings (incl. offset, interleaved insertion order, string keys) x 3 bond-length settings x 3-8 pinned numpy RNG seeds; vespr_layout must return one finite 2-vector per node, no coinciding bonded '
+    'nodes and a mean bond length equal to default_bond (1e-9). The refined layout is judged on all trees with 3-7 nodes (tolerance 5e-3).',
+    COMMON_NOTE + ' "All RNG seeds" is covered for the enumerated seed set only.',
+    'exhaustive enumeration of small connected graphs x configurations (relabelings, scales, pinned RNG seeds) on the real layout functions',
+    'DESIGN.md section 4 C19')
+
 NOT_YET = {}
 
 def main():
